@@ -15,15 +15,6 @@ Definition mk (user pw host : string) (port : option Z) (db : string) (args : li
 (* the full-strength statements *)
 Definition roundtrip_full : Prop :=
   forall name c, in_domain name c = true -> port_in_range c = true -> roundtrips name c.
-Definition bad_port_build_full : Prop :=
-  forall name c, in_domain name c = true -> port_in_range c = false -> rejected name c.
-Definition bad_port_text_full : Prop :=
-  forall nt name ui host ptxt tail,
-    valid_scheme name = true ->
-    match ui with Some a => forallb netloc_char a | None => true end = true ->
-    valid_host host = true -> forallb port_char ptxt = true -> tail_ok tail = true ->
-    ptxt <> [] -> port_text_in_range ptxt = false ->
-    parse_uri nt (uri_with_port name ui host ptxt tail) = RErr X_Value.
 Definition sqlite_full : Prop :=
   forall path, valid_text path = true -> is_abs path = true \/ path = memory_name -> sqlite_roundtrips path.
 
@@ -32,22 +23,9 @@ Ltac not_roundtrip :=
   intros (u & Hb & Hp); vm_compute in Hb; try discriminate Hb;
   injection Hb as <-; vm_compute in Hp; discriminate Hp.
 
-(* a port on a connection without host is not written: postgres://u:p@/db *)
-Lemma refuted_port_without_host :
-  exists name c, in_domain name c = true /\ port_in_range c = true /\ pw_has_user c = true /\ no_args c = true
-                 /\ c_port c = Some 5433%Z /\ is_nil (c_host c) = true
-                 /\ (exists u r, build_comps name c = ROk u /\ parse_uri false u = ROk r /\ r_port r = None)
-                 /\ ~ roundtrips name c.
-Proof.
-  exists (lit "postgres"), (mk "u" "p" "" (Some 5433%Z) "db" []).
-  repeat split; try reflexivity.
-  - eexists. eexists. split; [vm_compute; reflexivity|]. split; vm_compute; reflexivity.
-  - not_roundtrip.
-Qed.
-
 (* uri() has no place for extra parameters *)
 Lemma refuted_params :
-  exists name c, in_domain name c = true /\ port_in_range c = true /\ port_has_host c = true /\ pw_has_user c = true
+  exists name c, in_domain name c = true /\ port_in_range c = true /\ pw_has_user c = true
                  /\ c_args c <> []
                  /\ (exists u r, build_comps name c = ROk u /\ parse_uri false u = ROk r /\ r_args r = [])
                  /\ ~ roundtrips name c.
@@ -61,7 +39,7 @@ Qed.
 (* a password without a user name is refused by an assert, although
    scheme://:password@host/ parses to exactly that *)
 Lemma refuted_password_without_user :
-  exists name c, in_domain name c = true /\ port_in_range c = true /\ port_has_host c = true /\ no_args c = true
+  exists name c, in_domain name c = true /\ port_in_range c = true /\ no_args c = true
                  /\ build_comps name c = RErr X_Assert
                  /\ (exists u, parse_uri false u = ROk (expected c))
                  /\ ~ roundtrips name c.
@@ -72,70 +50,10 @@ Proof.
   - not_roundtrip.
 Qed.
 
-(* an IPv6 address as host is written without brackets; the reported URI does
-   not parse (this host lies outside valid_host, which excludes ':' -- the
-   witness shows what the exclusion hides) *)
-Lemma refuted_ipv6_host :
-  exists name c u, c_host c = lit "::1" /\ c_port c = Some 3306%Z
-                   /\ build_comps name c = ROk u /\ u = lit "mysql://u:p@::1:3306/db"
-                   /\ parse_uri false u = RErr X_Value.
-Proof.
-  exists (lit "mysql"), (mk "u" "p" "::1" (Some 3306%Z) "db" []). eexists.
-  repeat split; try (vm_compute; reflexivity).
-Qed.
-
 Lemma roundtrip_full_false : ~ roundtrip_full.
 Proof.
-  intros F. destruct refuted_port_without_host as (name & c & Hd & Hr & _ & _ & _ & _ & _ & Hn).
+  intros F. destruct refuted_params as (name & c & Hd & Hr & _ & _ & _ & Hn).
   exact (Hn (F name c Hd Hr)).
-Qed.
-
-(* port 0 is neither written nor rejected *)
-Lemma refuted_port_zero_build :
-  exists name c, in_domain name c = true /\ port_in_range c = false /\ c_port c = Some 0%Z
-                 /\ (exists u r, build_comps name c = ROk u /\ parse_uri false u = ROk r /\ r_port r = None)
-                 /\ ~ rejected name c.
-Proof.
-  exists (lit "mysql"), (mk "u" "p" "h" (Some 0%Z) "db" []).
-  repeat split; try reflexivity.
-  - eexists. eexists. split; [vm_compute; reflexivity|]. split; vm_compute; reflexivity.
-  - intros R. destruct (R (lit "mysql://u:p@h/db") ltac:(vm_compute; reflexivity)) as [e He].
-    vm_compute in He. discriminate He.
-Qed.
-
-(* an out-of-range port on a connection without host is silently dropped *)
-Lemma refuted_bad_port_without_host :
-  exists name c, in_domain name c = true /\ port_in_range c = false /\ c_port c = Some 70000%Z
-                 /\ ~ rejected name c.
-Proof.
-  exists (lit "mysql"), (mk "u" "p" "" (Some 70000%Z) "db" []).
-  repeat split; try reflexivity.
-  intros R. destruct (R (lit "mysql://u:p@/db") ltac:(vm_compute; reflexivity)) as [e He].
-  vm_compute in He. discriminate He.
-Qed.
-
-Lemma bad_port_build_full_false : ~ bad_port_build_full.
-Proof.
-  intros F. destruct refuted_port_zero_build as (name & c & Hd & Hr & _ & _ & Hn).
-  exact (Hn (F name c Hd Hr)).
-Qed.
-
-(* the parser accepts the port text "0" (and "00", ...) as "no port" *)
-Lemma refuted_port_text_zero :
-  exists name host ptxt tail r,
-    valid_scheme name = true /\ valid_host host = true /\ forallb port_char ptxt = true /\ tail_ok tail = true
-    /\ ptxt <> [] /\ port_text_in_range ptxt = false /\ port_text_zero ptxt = true
-    /\ parse_uri false (uri_with_port name None host ptxt tail) = ROk r /\ r_port r = None.
-Proof.
-  exists (lit "mysql"), (lit "h"), (lit "0"), (lit "/db").
-  eexists. repeat split; try (vm_compute; reflexivity); try discriminate.
-Qed.
-
-Lemma bad_port_text_full_false : ~ bad_port_text_full.
-Proof.
-  intros F. destruct refuted_port_text_zero as (name & host & ptxt & tail & r & Hs & Hh & Hp & Ht & Hne & Hr & _ & Hpar & _).
-  pose proof (F false name None host ptxt tail Hs eq_refl Hh Hp Ht Hne Hr) as E.
-  assert (X : ROk r = RErr X_Value) by (rewrite <- Hpar; exact E). discriminate X.
 Qed.
 
 (* the absolute path "/:memory:" comes back as the in-memory database *)
